@@ -226,6 +226,10 @@ func (w *concWorld) restart(crash bool) {
 // runHist is the body of C01 (attestations) and C02 (proposals): histories of conflict-seeking
 // requests, sequential or in concurrent phases, with clean and crash restarts in between.
 func runHist(t *testing.T, rc *RunCtx, prop string) {
+	if rc.Param("mode", "") == "daemon" {
+		runDaemonHist(t, rc, prop)
+		return
+	}
 	if prop == "C01" && rc.Param("mode", "") == "free" {
 		runBatchFree(t, rc, prop)
 		return
